@@ -22,6 +22,10 @@ pub enum Alter {
     AllBitFlips,
     /// these patches, applied before open (None) or after history operation `after_op`
     Patches { patches: Vec<Patch>, after_op: Option<usize> },
+    /// a hand-made paged byte string with a page size other than 1024 (accepted by the static
+    /// validate_crc / raw_xml, which read the page size from the header): checksums by the
+    /// independent CRC-32C; optionally one flipped bit
+    OddPageSize { size: u64, pages: u64, seed: u64, flip: Option<u64> },
     /// these patches, applied to the stored bytes at device operation number `at` of the reader
     /// session (counted from the open): in the middle of whatever library call is in progress
     AtDeviceOp { patches: Vec<Patch>, at: u64 },
@@ -198,7 +202,82 @@ pub fn draw_alteration(f: &mut Rng, image_len: usize) -> Vec<Patch> {
     }
 }
 
+fn run_odd_page_size(case: &Case, size: u64, pages: u64, seed: u64, flip: Option<u64>, st: &mut RunStats) -> Outcome<Case> {
+    st.evaluations += 1;
+    let size = size.max(64) as usize;
+    let pages = pages.clamp(1, 64) as usize;
+    let mut r = Rng::new(seed);
+    let mut image = vec![0u8; size * pages];
+    r.fill(&mut image);
+    let payload = size - 4;
+    let xml_len = (r.below(200) + 1).min((payload * pages - 48) as u64);
+    image[0..8].copy_from_slice(b"ASTM-E57");
+    image[8..12].copy_from_slice(&1u32.to_le_bytes());
+    image[12..16].copy_from_slice(&0u32.to_le_bytes());
+    image[16..24].copy_from_slice(&((size * pages) as u64).to_le_bytes());
+    image[24..32].copy_from_slice(&48u64.to_le_bytes());
+    image[32..40].copy_from_slice(&xml_len.to_le_bytes());
+    image[40..48].copy_from_slice(&(size as u64).to_le_bytes());
+    for p in 0..pages {
+        let crc = page::crc32c(&image[p * size..p * size + payload]).to_be_bytes();
+        image[p * size + payload..(p + 1) * size].copy_from_slice(&crc);
+    }
+    // expected XML bytes: logical stream from logical offset 48 (physical 48, page 0)
+    let mut logical = Vec::new();
+    for p in 0..pages {
+        logical.extend_from_slice(&image[p * size..p * size + payload]);
+    }
+    let want_xml = logical[48..48 + xml_len as usize].to_vec();
+    if let Some(bit) = flip {
+        let bit = bit % (image.len() as u64 * 8);
+        // not in the page-size field itself: that would change how the file is paged
+        let byte = (bit / 8) as usize;
+        if !(40..48).contains(&byte) {
+            image[byte] ^= 1 << (bit % 8);
+        }
+    }
+    let altered = flip.map(|b| !(40..48).contains(&(((b % (image.len() as u64 * 8)) / 8) as usize))).unwrap_or(false);
+    let ctx = new_ctx(vec![]);
+    let d = SimDisk::new(&ctx, DEV_DISK3, image.clone(), &case.rchunk);
+    let v = E57Reader::validate_crc(d);
+    let mut dg = Digest::new();
+    dg.bytes(&image).u64(v.is_ok() as u64);
+    match (&v, altered) {
+        (Ok(ps), false) => {
+            if *ps != size as u64 {
+                return Outcome::fail("validate-crc-page-size", format!("validate_crc returned page size {ps} for a file paged with {size}"));
+            }
+        }
+        (Err(e), false) => return Outcome::fail("validate-crc-rejects-pristine", format!("validate_crc rejects a correctly checksummed file with page size {size} ({pages} pages): {e}")),
+        (Ok(_), true) => return Outcome::fail("validate-crc-accepts-altered", format!("validate_crc accepts a file with page size {size} and one flipped bit")),
+        (Err(_), true) => {}
+    }
+    let d = SimDisk::new(&ctx, DEV_DISK3, image.clone(), &case.rchunk);
+    let x = E57Reader::raw_xml(d);
+    dg.u64(x.is_ok() as u64);
+    match (&x, altered) {
+        (Ok(b), _) => {
+            if b != &want_xml {
+                return Outcome::fail("raw-xml-differs", format!("raw_xml on a file with page size {size} returned other bytes than were stored"));
+            }
+        }
+        (Err(e), false) => return Outcome::fail("raw-xml-rejects-pristine", format!("raw_xml rejects a correctly checksummed file with page size {size}: {e}")),
+        (Err(_), true) => {}
+    }
+    st.probe("page_size_other_than_1024", true);
+    st.set_add("page_size_mod_8", (size % 8) as u64);
+    st.absorb_ctx(&ctx);
+    st.digest = dg.finish();
+    let mut fp = Digest::new();
+    fp.u64(91).u64(size as u64).u64(pages as u64).u64(altered as u64);
+    st.fingerprint(fp.finish());
+    Outcome::Held
+}
+
 fn run_case(case: &Case, st: &mut RunStats) -> Outcome<Case> {
+    if let Alter::OddPageSize { size, pages, seed, flip } = &case.alter {
+        return run_odd_page_size(case, *size, *pages, *seed, *flip, st);
+    }
     // discover shape, then the pristine results for the history to use
     let probe = match pristine_of(case, &[]) {
         Ok(p) => p,
@@ -261,6 +340,7 @@ fn run_case(case: &Case, st: &mut RunStats) -> Outcome<Case> {
                     "history": case.hist.iter().map(|o| format!("{o:?}")).collect::<Vec<_>>(), "file_bytes": pr.image.len()}));
             }
         }
+        Alter::OddPageSize { .. } => {}
         Alter::Patches { patches, after_op } => {
             st.evaluations += 1;
             let pr = match pristine_of(case, &case.hist) {
@@ -301,7 +381,7 @@ impl Prop for C07 {
     fn meta(&self) -> Meta {
         Meta {
             level: "fault_enumeration",
-            rule: "pristine file (crate writer or refcodec producer, 2-40 pages, several sections) -> alteration -> reader history. Run indices 0..4 (0..24 in thorough) enumerate EVERY single-bit flip of every page of a small file, each judged with validate_crc, raw_xml, open, xml, listings, raw + simple iteration of every cloud and every blob. Other indices sample alterations (1-3 bit flips in a page, bursts <= 32 bits, 1-64 byte overwrites, checksum-only damage, zeroed bytes, header bytes of page 0, two pages) applied before open, BETWEEN two operations of a 1-8 operation history (a page goes bad while it may be the cached page), or at a drawn device-operation instant INSIDE whatever call is in progress (SimDisk's Mutate fault). Oracle: validate_crc is Ok on the pristine file and Err on every altered one (altered = independent bitwise CRC-32C of a page payload differs from its stored big-endian checksum; an alteration that is not detectable this way, a 2^-32 event, is counted and skipped); every operation is Err or equals the pristine result, also after earlier failures on the same reader; pages written by the library carry the independent CRC-32C; the whole batch is executed by a second harness build with the crc32c cargo feature and the per-run digests (file bytes, results) must be identical. Distinct = alteration shape x history; every enumerated alteration is non-trivial".into(),
+            rule: "pristine file (crate writer or refcodec producer, 2-40 pages, several sections) -> alteration -> reader history. Run indices 0..4 (0..24 in thorough) enumerate EVERY single-bit flip of every page of a small file, each judged with validate_crc, raw_xml, open, xml, listings, raw + simple iteration of every cloud and every blob. Other indices sample alterations (1-3 bit flips in a page, bursts <= 32 bits, 1-64 byte overwrites, checksum-only damage, zeroed bytes, header bytes of page 0, two pages) applied before open, BETWEEN two operations of a 1-8 operation history (a page goes bad while it may be the cached page), or at a drawn device-operation instant INSIDE whatever call is in progress (SimDisk's Mutate fault). Every sixteenth run instead builds a paged byte string with a page size other than 1024 (64..70001, all residues modulo 8; checksums by the independent CRC) for the static validate_crc / raw_xml, with or without one flipped bit. Oracle: validate_crc is Ok on the pristine file and Err on every altered one (altered = independent bitwise CRC-32C of a page payload differs from its stored big-endian checksum; an alteration that is not detectable this way, a 2^-32 event, is counted and skipped); every operation is Err or equals the pristine result, also after earlier failures on the same reader; pages written by the library carry the independent CRC-32C; the whole batch is executed by a second harness build with the crc32c cargo feature and the per-run digests (file bytes, results) must be identical. Distinct = alteration shape x history; every enumerated alteration is non-trivial".into(),
             assumptions: vec![
                 "E57Reader::header() and the static raw_xml on a damaged page 0 are outside the property's list of read operations".into(),
                 "misplaced pages that carry their own valid checksum are not 'altered pages' in the sense of this property".into(),
@@ -314,6 +394,7 @@ impl Prop for C07 {
                 "read_ok_after_earlier_failure".into(),
                 "page_altered_between_operations".into(),
                 "page_altered_inside_an_operation".into(),
+                "page_size_other_than_1024".into(),
                 "open_rejected_altered_file".into(),
                 "second_crc_backend_compared".into(),
             ],
@@ -381,6 +462,13 @@ impl Prop for C07 {
         let rchunk = Chunk::draw(&mut c);
         if enumerate {
             return Case { prog, source, alter: Alter::AllBitFlips, hist: vec![], rchunk };
+        }
+        if rc.index % 16 == 9 {
+            let mut f = Rng::stream(rc.run_seed, "fault");
+            let size = *f.pick(&[64u64, 65, 66, 67, 100, 101, 510, 513, 1021, 1022, 1023, 1025, 1026, 1027, 2050, 4097, 9001, 70_001]);
+            let pages = 1 + f.below(6);
+            let flip = if f.chance(1, 2) { Some(f.next_u64()) } else { None };
+            return Case { prog, source, alter: Alter::OddPageSize { size, pages, seed: f.next_u64(), flip }, hist: vec![], rchunk };
         }
         let mut h = Rng::stream(rc.run_seed, "hist");
         let hlen = 1 + h.usize_below(8);
